@@ -43,8 +43,15 @@ def make_op(o: int, nops: int, positions: List[int], curved: bool = True):
 
     pts = [pos_coords(p) for p in positions]
     op = cb.Loft(cb.Face(pts[:4]), cb.Face(pts[4:]))
-    for a in range(3):
-        op.chop(a, count=2 + a)
+    if o == 1 and nops > 1:
+        # the first operation takes its cells across (axes 1 and 2) from its neighbour; on its own it cannot be graded -
+        # then neither can the fresh model
+        op.chop(0, count=2)
+    else:
+        op.chop(0, count=2)
+        # cells of a given first size: the grading depends on the length of every edge (it changes when vertices move)
+        op.chop(1, count=3, start_size=0.25, preserve="start_size")
+        op.chop(2, count=4)
     if o == 1:
         op.set_patch("left", "inlet")
     if o == nops:
